@@ -191,6 +191,58 @@ func genC01(t *rapid.T, cfg *core.Config, order bool, biased ...bool) *core.Case
 	return c
 }
 
+// genC01Directive: result directives over expressions whose static type the checker can only guess because a
+// dynamically typed operand (Any) takes part: the result must be the converted VALUE, whatever was guessed.
+func genC01Directive(t *rapid.T, cfg *core.Config) *core.Case {
+	anyTy := rapid.SampledFrom([]string{"int", "int8", "uint16", "int64", "float64", "float32"}).Draw(t, "anyTy")
+	spec := core.GenEnvSpec(t, anyTy, 4)
+	any := core.Var("Any", spec.AnyTy())
+	pick := func(k core.Kind, names ...string) *core.X {
+		return core.Var(rapid.SampledFrom(names).Draw(t, "v"), core.Num(k))
+	}
+	num := func() *core.X {
+		switch rapid.IntRange(0, 3).Draw(t, "numk") {
+		case 0:
+			return pick(core.KInt64, "I64")
+		case 1:
+			return pick(core.KF64, "F", "G")
+		case 2:
+			return pick(core.KInt, "I", "J")
+		}
+		return pick(core.KInt8, "I8")
+	}
+	var x *core.X
+	switch rapid.IntRange(0, 3).Draw(t, "shape") {
+	case 0:
+		o := num()
+		op := rapid.SampledFrom([]string{"+", "-", "*"}).Draw(t, "op")
+		ty := core.Num(core.Promote(any.Ty.K, o.Ty.K))
+		if rapid.Bool().Draw(t, "swap") {
+			x = core.Bin(op, o, any, ty)
+		} else {
+			x = core.Bin(op, any, o, ty)
+		}
+	case 1:
+		o := num()
+		if spec.B {
+			x = core.Cond(core.Var("B", core.TBool), o, any, o.Ty)
+		} else {
+			x = core.Cond(core.Var("B", core.TBool), o, any, any.Ty)
+		}
+	case 2:
+		x = core.Un("-", any, any.Ty)
+	default:
+		x = any
+	}
+	c := pcase("C01", "eval")
+	c.X, c.Env = x, spec
+	c.Source = x.Src()
+	c.P["opt"] = rapid.Bool().Draw(t, "opt")
+	c.P["mode"] = rapid.SampledFrom([]string{"typed", "typed", "untyped"}).Draw(t, "mode")
+	c.P["directive"] = rapid.SampledFrom([]string{"int64", "float64"}).Draw(t, "directive")
+	return c
+}
+
 func TestC01(t *testing.T) {
 	cfg, rec, done := setup(t, "C01")
 	if done {
@@ -203,5 +255,8 @@ func TestC01(t *testing.T) {
 	if !core.RunRapid(t, rec, "order", cfg.N(30000, 600000), func(rt *rapid.T) *core.Case { return genC01(rt, cfg, true) }) {
 		return
 	}
-	core.RunRapid(t, rec, "rewrite-biased", cfg.N(20000, 400000), func(rt *rapid.T) *core.Case { return genC01(rt, cfg, false, true) })
+	if !core.RunRapid(t, rec, "rewrite-biased", cfg.N(20000, 400000), func(rt *rapid.T) *core.Case { return genC01(rt, cfg, false, true) }) {
+		return
+	}
+	core.RunRapid(t, rec, "directive-dynamic", cfg.N(4000, 60000), func(rt *rapid.T) *core.Case { return genC01Directive(rt, cfg) })
 }
